@@ -123,6 +123,9 @@ func printReport(rep *FuncReport, verbose bool, keep string) {
 	if rep.Vacuity != "" {
 		fmt.Printf("   VACUOUS: %s\n", rep.Vacuity)
 	}
+	if len(rep.NeverHooks) > 0 {
+		fmt.Printf("   NEVER-FIRES (assert/ghost hooks that matched no call): %s\n", strings.Join(rep.NeverHooks, ", "))
+	}
 	if len(rep.NeverEvents) > 0 {
 		fmt.Printf("   NEVER-OCCURS (clauses naming these events can only state absence): %s\n", strings.Join(rep.NeverEvents, ", "))
 	}
